@@ -29,8 +29,8 @@ from .core import RunResult, sha, canon, HarnessError
 
 VERIF = os.path.dirname(os.path.dirname(os.path.abspath(__file__)))
 FINDINGS_FILE = os.path.join(VERIF, "known_findings.json")
-REPLAY_DIR = os.path.join(VERIF, "replays")
-EVIDENCE_DIR = os.path.join(VERIF, "evidence")
+REPLAY_DIR = os.environ.get("VERIF_REPLAY_DIR") or os.path.join(VERIF, "replays")
+EVIDENCE_DIR = os.environ.get("VERIF_EVIDENCE_DIR") or os.path.join(VERIF, "evidence")
 
 _CHECK = None       # set in the parent before forking; inherited by workers
 _FINDINGS = None
@@ -369,8 +369,8 @@ def run_check(check, tier, verif_seed, workers=None, budget_s=None, out=sys.stdo
 
     for he in agg["harness_errors"][:3]:
         print("HARNESS-ERROR property=%s %s" % (check.PROPERTY, str(he.get("harness_error"))[-1500:]), file=out)
-    if agg["harness_errors"]:
-        exit_code = 2
+    if agg["harness_errors"] and exit_code == 0:
+        exit_code = 2       # never exit 0 after a harness error; a minimised, reproduced violation keeps exit 1
 
     wall = time.time() - t_start
     zero_probes = [p for p in getattr(check, "PROBES", []) if agg["probes"].get(p, 0) == 0]
